@@ -58,6 +58,8 @@ func loopBodyMustPass(fn *ssa.Function, isC func(ssa.Instruction) bool) (found, 
 
 func checkC12(c *Ctx) {
 	l := c.L
+	c.rule("PASS-root-record", "existence and identity of a version come from its stored root record, not from the node cache or the working tree", 2)
+	checkRootRecord(c, "PASS-root-record")
 	c.rule("PASS-new-nodes-saved", "every keyed new node is queued and saved", 2)
 	c.rule("PASS-orphans-deleted", "every orphan handed to the pruning callback is deleted", 1)
 	c.rule("FLOW-rollback-range", "rollback deletes exactly the node keys of versions >= fromVersion", 2)
